@@ -26,7 +26,8 @@ type Op struct {
 	Chunks []int  `json:"chunks,omitempty"`
 	Trace  bool   `json:"trace,omitempty"` // record hook events
 	Level  string `json:"level,omitempty"`
-	Heavy  bool   `json:"heavy,omitempty"` // allow a long stall budget
+	Heavy  bool   `json:"heavy,omitempty"`  // allow a long stall budget
+	Script bool   `json:"script,omitempty"` // report the read-call script
 }
 
 // Obs is what the worker observed for one Op.
@@ -45,7 +46,8 @@ type Obs struct {
 	Alloc  uint64            `json:"alloc,omitempty"` // TotalAlloc delta
 	Events []json.RawMessage `json:"ev,omitempty"`    // hook events
 	NS     int64             `json:"ns,omitempty"`
-	Stall  string            `json:"stall,omitempty"` // deterministic non-progress detected by hooks
+	Stall  string            `json:"stall,omitempty"`  // deterministic non-progress detected by hooks
+	Script []int             `json:"script,omitempty"` // sizes of the Read requests issued to the underlying reader
 }
 
 // Bad reports whether the op did not return normally.
